@@ -261,7 +261,10 @@ func (g *gen) genStruct(c *ctx, name string, depth int, nFields int, usedNames m
 			opts = append(opts, "pk")
 		}
 		if g.rng.Intn(6) == 0 {
-			txt := []string{"a note", "the key", "PRIMARY KEY of x"}[g.rng.Intn(3)]
+			txt := []string{"a note", "the key"}[g.rng.Intn(2)]
+			if g.rng.Intn(12) == 0 {
+				txt = "PRIMARY KEY of x" // the recorded finding comment-contains-primary-key: rare, so that it does not excuse most structs
+			}
 			items = append(items, "comment:"+txt)
 			opts = append(opts, "comment:"+txt)
 			c.count("tag_comment")
